@@ -29,7 +29,11 @@ def base_documents(ctx, n):
     # user directives on executable locations); merged, extension-free models
     import tsgen as TG
     for k in range(4):
-        scs.append({"name": "seeded%d" % k, "model": TG.TsGen(ctx.rng).schema()})
+        m = TG.TsGen(ctx.rng).schema()
+        # the real checker sees the schema split into definitions and `extend` items (interfaces, fields, members, values, directives
+        # contributed by extensions); the reference works on the merged model
+        split = TG.split_files(m, ctx.rng, 1)
+        scs.append({"name": "seeded%d" % k, "model": m, "renderModel": {"defs": [it for f in split for it in f["items"]]}})
     gens = {s["name"]: G2.SchemaDocGen(s["model"], ctx.rng) for s in scs}
     docs = []
     for i in range(n):
